@@ -1147,7 +1147,15 @@ def arr_binop(ex, op, a, b, pc):
         shape = tuple(y if (concrete(x) and x == 1) else x for x, y in zip(a.shape, b.shape))
     else:
         shape = big.shape
-    return SArr(shape, lambda *i: ex.binop(op, sc(a, i), sc(b, i), pc), big.dtype)
+    # true division always gives a float; otherwise the result is real as soon as one operand is
+    def _dt(x):
+        if isinstance(x, SArr):
+            return x.dtype
+        if isinstance(x, (bool, int)) or (is_z3(x) and x.sort() == z3.IntSort()):
+            return "int"
+        return "real"
+    dt = "real" if isinstance(op, ast.Div) or "real" in (_dt(a), _dt(b)) else big.dtype
+    return SArr(shape, lambda *i: ex.binop(op, sc(a, i), sc(b, i), pc), dt)
 
 
 def arr_at_set(ex, proxy, val, pc):
@@ -1606,6 +1614,38 @@ def lib_iinfo(ex, args, kwargs, pc):
     return Rec("iinfo", {"max": INT32_MAX, "min": -INT32_MAX - 1})
 
 
+def lib_floor(ex, args, kwargs, pc):
+    """jnp.floor.  On integers: identity.  On a floating value (a quotient, a product with a step, ...) the machine's
+    argument is the real value plus a rounding error: floor(x + err) with |err| <= eps for an unspecified 0 < eps < 1/4 —
+    floor of an exactly integral real may come out one below (or, with a positive error, stay): index arithmetic done in
+    floating point is not integer arithmetic."""
+    x = args[0]
+    if not hasattr(ex, "_fp_eps"):
+        ex._fp_eps = fresh_real("fp_eps")
+        ex.extra_axioms = getattr(ex, "extra_axioms", []) + [ex._fp_eps > 0, ex._fp_eps < z3.RealVal("1/4")]
+    def one(v, idx):
+        if isinstance(v, int) or (is_z3(v) and v.sort() == z3.IntSort()):
+            return v
+        if isinstance(v, float):
+            import math
+            return math.floor(v)
+        err = fresh_fun("fp_err", *([z3.IntSort()] * max(len(idx), 1) + [z3.RealSort()]))
+        return err, v
+    if isinstance(x, SArr):
+        if x.dtype == "int":
+            return x
+        err = fresh_fun("fp_err", *([z3.IntSort()] * len(x.shape) + [z3.RealSort()]))
+        qs = [z3.Int(f"fpq{k}") for k in range(len(x.shape))]
+        ex.extra_axioms = ex.extra_axioms + [z3.ForAll(qs, z3.And(err(*qs) >= -ex._fp_eps, err(*qs) <= ex._fp_eps))]
+        return SArr(x.shape, lambda *i: z3.ToInt(zreal(x.elem(*i)) + err(*[zint(q) for q in i])), "int")
+    r = one(x, ())
+    if isinstance(r, tuple):
+        e = fresh_real("fp_err")
+        ex.extra_axioms = ex.extra_axioms + [e >= -ex._fp_eps, e <= ex._fp_eps]
+        return z3.ToInt(zreal(x) + e)
+    return r
+
+
 def lib_finfo(ex, args, kwargs, pc):
     """jnp.finfo(dtype): eps / tiny are positive reals below 1, max is a positive real (values not fixed: the dtype of a
     symbolic array is not tracked beyond real / int)"""
@@ -1845,6 +1885,7 @@ LIB = {
     "jnp.zeros": lib_zeros,
     "jnp.ones": lib_ones,
     "jnp.iinfo": lib_iinfo,
+    "jnp.floor": lib_floor,
     "jnp.broadcast_to": lib_broadcast_to,
     "jnp.finfo": lib_finfo,
     "jnp.int32": "int32",
